@@ -31,6 +31,7 @@ package main
 import (
 	"bufio"
 	"encoding/json"
+	"errors"
 	"fmt"
 	"io"
 	"math/rand"
@@ -330,7 +331,71 @@ func (r *c05Run) startPair() (*sftp.Client, func(), error) {
 		}
 		defer r.leave()
 	}
-	return c05StartPair(r.opts...)
+	cli, stop, end, err := c05StartPairEnd(r.opts...)
+	r.end = end
+	r.escSeen = len(r.guardRefusals())
+	return cli, stop, err
+}
+
+// ---------------------------------------------------------------------------------------------
+// who ended a connection (all path modes)
+
+// guardRefusals returns the refusals of the transport guard recorded so far that concern this run: those that name
+// its scratch directory and, in the child made for path mode cwd (one sequence at a time; a relative path is judged
+// from the process directory), those that name the child's scratch area.
+func (r *c05Run) guardRefusals() []string {
+	var out []string
+	for _, e := range lib.Escapes() {
+		if strings.Contains(e, r.base) || c05InCwdChild && strings.Contains(e, filepath.Dir(r.base)+"/") {
+			out = append(out, e)
+		}
+	}
+	return out
+}
+
+// serverEnded: Serve of the pair in use has returned.
+func (r *c05Run) serverEnded() bool {
+	if r.end == nil {
+		return false
+	}
+	select {
+	case <-r.end.done:
+		return true
+	default:
+		return false
+	}
+}
+
+// endedByHarness says whether — and why — the connection of the pair is gone because of the harness: the transport
+// guard refused a frame of this run (the server then sees its input end), or the harness stopped the pair.
+func (r *c05Run) endedByHarness(outA c05Out) string {
+	if !r.serverEnded() && !errors.Is(outA.err, sftp.ErrSSHFxConnectionLost) {
+		return ""
+	}
+	if r.end != nil && r.end.byHarness.Load() {
+		return "the-pair-was-stopped"
+	}
+	// the guard records a refusal before the server can see its input end; the server's end reaches the client later
+	if n := len(r.guardRefusals()); n > r.escSeen {
+		r.escSeen = n
+		return "transport-guard-refused-a-frame"
+	}
+	return ""
+}
+
+// connectionState describes, for a failure, the pair whose connection is gone: what Serve returned, the goroutines
+// the package started and the goroutines blocked inside it (in the child of path mode cwd these are the pair's own;
+// in the process shared by the other sequences, those of all pairs).
+func (r *c05Run) connectionState() map[string]any {
+	started, callers := cliPkgGoroutines()
+	trim := func(l []string) []string {
+		if len(l) > 24 {
+			l = append(l[:24:24], fmt.Sprintf("… %d in all", len(l)))
+		}
+		return l
+	}
+	return map[string]any{"server": r.end.describe(), "transport_guard_refusals_of_this_run": r.guardRefusals(),
+		"goroutines_started_by_the_package": trim(cliDescribe(started)), "goroutines_blocked_inside_the_package": trim(cliDescribe(callers))}
 }
 
 // cwdDir is the process directory of the operations in the tree with the given root.
